@@ -72,8 +72,7 @@ func normalizeAndTokenize(s string) []string {
 		return nil
 	}
 	// Normalize similarly to NLP pipeline, then lowercase
-	s = nlp.NormalizeText(s)
-	lower := strings.ToLower(s)
+	lower := nlp.NormalizeText(strings.ToLower(s))
 	words := strings.FieldsFunc(lower, func(r rune) bool { return !unicode.IsLetter(r) && !unicode.IsNumber(r) })
 
 	out := make([]string, 0, len(words))
